@@ -57,7 +57,8 @@ def fault_fn(a, tier):
     tmp = [NodeSpec(i, parents[i]) for i in range(n)]
     below = set(descendants(tmp, fnode)) if phase == 2 else set()
     for i in range(n):
-        prep = [("td", f"prep{i}"), ("cp",), ("pub", f"res{i}", object(), "default", [RT[i]]), ("cp",)]
+        # odd components register a callback that returns a non-coroutine awaitable, all of them also one through a shared @context_teardown function
+        prep = [("tdaw" if i % 2 else "td", f"prep{i}"), ("ctxtd", f"ct{i}"), ("cp",), ("pub", f"res{i}", object(), "default", [RT[i]]), ("cp",)]
         start = [("cp",), ("td", f"start{i}"), ("cp",)]
         if svc == 4:
             if i != fnode and i not in below:
@@ -73,7 +74,7 @@ def fault_fn(a, tier):
                 node.init_raises = exc
             else:
                 steps = prep if phase == 1 else start
-                steps.insert(0 if moment == 0 else 2, ("raise", exc))
+                steps.insert(0 if moment == 0 else (3 if phase == 1 else 2), ("raise", exc))
         nodes.append(node)
     classes = build_classes(env, nodes)
     out = {}
